@@ -131,7 +131,12 @@ def register(props):
                 "witnesses; UnserializeScope / UnserializeSchema / Client.ReadSchema (a scripted plugin sends the hello over a pipe) "
                 "in the supervised worker, then GetDefaults, SelfSerialize, Properties, ValidateReferences and Unserialize / "
                 "ValidateCompatibility / Validate / Serialize (also of the unserialized value and back) on every step input, "
-                "output and signal schema with generated and fixed inputs; distinct by case text; non-trivial = carries a top-level "
+                "output and signal schema with generated and fixed inputs, the first four generated inputs also with every number "
+                "written as its decimal text (numbers given as strings go through the units parser and the string mappers), plus "
+                "the data operations on EVERY object of every scope table (reachable from the root or not), plus two inputs "
+                "derived from the ACCEPTED schema itself through its public accessors (every property of every object, one item / "
+                "entry per container, the first member of every one-of; numbers as numbers and as text): whatever the loader let "
+                "through is used where it sits; distinct by case text; non-trivial = carries a top-level "
                 "key of the meta-schema or is accepted",
         "assumptions": ["decoded inputs are Go values: a tree with two equal keys in one map is not a value and is not generated",
                         "UnserializeScope may return a scope that still references another namespace (observable `pending`): "
